@@ -1,6 +1,7 @@
 import SqlgrepModel.Drivers.C16
 import SqlgrepModel.Drivers.Eval
 import SqlgrepModel.Drivers.Run
+import SqlgrepModel.Drivers.Reader
 /- Line protocol driver: `<kind> <payload…>` per line in, one answer line out. -/
 open Sqlgrep
 
@@ -12,6 +13,10 @@ def dispatch (line : String) : String :=
     | "eval" => Drivers.Eval.handle args
     | "batch" => Drivers.Run.handleBatch args
     | "incr" => Drivers.Run.handleIncr args
+    | "follow" => Drivers.Reader.handleFollow args
+    | "lines" => Drivers.Reader.handleLines true args
+    | "linecount" => Drivers.Reader.handleLines false args
+    | "joinlines" => Drivers.Reader.handleJoin args
     | _ => "unknown-kind"
   | _ => "bad-line"
 
